@@ -109,9 +109,11 @@ def run_config(cfg, ncalls=3, port=8899, rnd=None, readlog=None, extra=None, mba
         res["inv"] = inv
         await inv.read_device_info()
         res["ids_after_info"] = {s.id_ for s in inv.sensors()}      # (sensor discovery before the first poll, as integrations do)
+        res["poll_windows"] = []
         for i in range(ncalls):
             if readlog:
                 readlog.start()
+            n_log0 = len(sim.log)
             try:
                 data = await inv.read_runtime_data()
                 out = ("ok", set(data), {s.id_ for s in inv.sensors()}, data)
@@ -124,6 +126,8 @@ def run_config(cfg, ncalls=3, port=8899, rnd=None, readlog=None, extra=None, mba
                     if entry[3] < entry[2]:
                         res["short_reads"].append((i,) + entry)
             res["calls"].append(out)
+            res["poll_windows"].append((out[0] == "ok", [(r[2]["reg"], r[2]["count"]) for r in sim.log[n_log0:] if r[2]["kind"] == "read"]))
+        res["sensors_after_polls"] = tuple(inv.sensors())
         if extra:
             await extra(inv, sim, loop, res)
 
